@@ -73,5 +73,12 @@ theorem C03_src_final_row (r : Run α) (l : LoopSt α) (hm : nz l.mach = true) :
     mkRow r l.s.time l.s.pos l.s.vel l.speed l.mach l.density l.drag fNONE = some (Src.final_row r l) :=
   SrcLoop.final_row_eq r l hm
 
+/-- `Calculator.fire` without a step records every tenth of the range (the step is stored in raw inches, `_integrate` receives feet);
+    `TrajectoryCalc.trajectory` records RANGE rows, or everything with extra data, and hands range and step over in feet -/
+theorem C03_src_default_step (rangeRaw : α) : Src.fire_default_step rangeRaw = rangeRaw / 10.0 := rfl
+theorem C03_src_given_step (stepRaw : α) : Src.fire_given_step stepRaw = stepRaw := rfl
+theorem C03_src_flags : Src.trajectory_flags false = fRANGE ∧ Src.trajectory_flags true = fALL := ⟨rfl, rfl⟩
+theorem C03_src_feet (raw : α) : Src.trajectory_feet raw = feetOf raw := rfl
+
 end
 end BC.Props.C03
